@@ -3,7 +3,7 @@
 # dependencies) plus z3-solver and crosshair-tool from the offline wheelhouse.
 # Idempotent; every check calls it first because only committed files survive a restore.
 set -e
-V=/verif/.venv
+V="$(cd "$(dirname "$0")" && pwd)/.venv"
 if [ -x "$V/bin/python" ] && "$V/bin/python" -c 'import z3, cryptography, yaml' 2>/dev/null; then
     exit 0
 fi
